@@ -139,10 +139,12 @@ func decodeBinaryValue(reader ByteRuneReader, flag int32) ([]byte, error) {
 		if err != nil {
 			return nil, err
 		}
-		if newLength < length {
-			buf = buf[:newLength]
-			length = newLength
+		// the next chunk may be shorter or longer than the previous one
+		if newLength > cap(buf) {
+			buf = make([]byte, newLength)
 		}
+		buf = buf[:newLength]
+		length = newLength
 	}
 
 	return byteBuf.Bytes(), nil
